@@ -149,3 +149,15 @@ fn spec_mirror_canary() {
     let q = sp::s_mirror(&p);
     assert!(sp::s_check_pin(&p).0 == sp::s_check_pin(&q).0);
 }
+
+// @ob id=S1.6 props=C03 tier=quick kind=lemma cache=yes deps=any_pos weight=medium fn="spec: s_check_pin_pointwise,s_check_pin" desc="code-independent: the pointwise slider rule (checker iff nothing between, pinned = the single man between; XOR-accumulated over the candidate sliders in any order) equals the eight-ray-walk definition of checkers and raw pinned, for every consistent placement with one king per side and EVERY king square"
+#[kani::proof]
+#[kani::unwind(66)]
+fn spec_pointwise_equals_walks() {
+    let mut p = any_pos();
+    kani::assume(sp::s_one_king_each(&p));
+    let (c1, p1) = sp::s_check_pin_pointwise(&p);
+    let (c2, p2) = sp::s_check_pin(&p);
+    assert!(c1 == c2);
+    assert!(p1 == p2);
+}
